@@ -142,6 +142,12 @@ func (m *evidenceMonitor) BlockCommitted(s *Sim, node int, block *types.Block, i
 					}
 				}
 			}
+			// a signature reused for a hash it does not sign (forged second entry)
+			for i := range rs {
+				other := rs[i]
+				other.hash = common.BytesToHash(append([]byte("not-signed-"), rs[i].hash[:8]...))
+				cands = append(cands, cand{rs[i], other, "reused-signature kinds=" + kindPair(rs[i], rs[i]) + " (second entry lists another hash with the same signature)"})
+			}
 			for _, cd := range cands {
 				// any claimed vote type: the signed payload carries none
 				for _, claimed := range []uint8{staking.Prevote, staking.Precommit, staking.NextIndex} {
